@@ -60,10 +60,12 @@ def main():
 
         d = os.path.join(VERIF, "seeded", save)
         os.makedirs(d, exist_ok=True)
-        shutil.copy(patch, os.path.join(d, "patch.diff"))
-        shutil.copy(demo, os.path.join(d, "demo.py"))
+        if os.path.abspath(patch) != os.path.join(d, "patch.diff"):
+            shutil.copy(patch, os.path.join(d, "patch.diff"))
+        if os.path.abspath(demo) != os.path.join(d, "demo.py"):
+            shutil.copy(demo, os.path.join(d, "demo.py"))
         notes = os.path.join(os.path.dirname(patch), os.path.basename(patch).replace("change", "notes").replace(".diff", ".md"))
-        if os.path.exists(notes):
+        if os.path.exists(notes) and os.path.abspath(notes) != os.path.join(d, "notes.md"):
             shutil.copy(notes, os.path.join(d, "notes.md"))
         meta = {"id": save, "breaks_property": breaks, "needs_to_manifest": needs,
                 "confirmed": {"applies_to_HEAD": out.get("applies"), "test_suite": out.get("tests"),
